@@ -772,11 +772,13 @@ func newControlPlaneWithContextOptions(
 	}
 	plane.dnsRouting = dnsUpstream
 	plane.dnsFixedDomainTtl = fixedDomainTtl
+	// Kept on the plane so that a reload which reuses the previous controller
+	// (ReuseDNSControllerFrom) passes them on as well.
+	plane.dnsOptimisticCache = dnsConfig.OptimisticCache
+	plane.dnsOptimisticCacheTtl = dnsConfig.OptimisticCacheTtl
+	plane.dnsMaxCacheSize = dnsConfig.MaxCacheSize
+	plane.dnsIpVersionPrefer = dnsConfig.IpVersionPrefer
 	dnsControllerOption := plane.dnsControllerOption()
-	dnsControllerOption.OptimisticCache = dnsConfig.OptimisticCache
-	dnsControllerOption.OptimisticCacheTtl = dnsConfig.OptimisticCacheTtl
-	dnsControllerOption.MaxCacheSize = dnsConfig.MaxCacheSize
-	dnsControllerOption.IpVersionPrefer = dnsConfig.IpVersionPrefer
 	plane.dnsController, err = NewDnsController(dnsUpstream, dnsControllerOption)
 	if err != nil {
 		return nil, err
@@ -1292,7 +1294,11 @@ func (c *ControlPlane) dnsControllerOption() *DnsControllerOption {
 				UdpHealthDomain: dialer.UdpHealthDomainDns,
 			}, err)
 		},
-		FixedDomainTtl: c.dnsFixedDomainTtl,
+		FixedDomainTtl:     c.dnsFixedDomainTtl,
+		OptimisticCache:    c.dnsOptimisticCache,
+		OptimisticCacheTtl: c.dnsOptimisticCacheTtl,
+		MaxCacheSize:       c.dnsMaxCacheSize,
+		IpVersionPrefer:    c.dnsIpVersionPrefer,
 	}
 }
 
